@@ -58,3 +58,92 @@ package lang
 //@   loop 1 invariant b: forall k int :: old(l.pos) <= k && k < l.pos ==> l.src[k] != '\n'
 //@   loop 1 invariant c: forall k int :: old(l.pos) <= k && k < l.pos ==> isBlank(l.src[k]) || cmt(l.src, k) >= old(l.pos)
 //@   loop 1 invariant d: l.pos < len(l.src) ==> l.src[l.pos] == '#' || (l.pos > old(l.pos) && cmt(l.src, l.pos - 1) >= old(l.pos))
+
+//@ spec func tokOK(l *Lexer) bool = lexOK(l) && 0 <= l.tokenStart && l.tokenStart <= l.pos
+
+//@ func Lexer.number [C13]
+//@   requires tokOK(l) && l.pos == l.tokenStart && l.pos < len(l.src) && isDigitB(l.src[l.pos])
+//@   ensures[C13] token: result.Tag == Num && result.Pos == old(l.pos) && result.Len == l.pos - old(l.pos) && old(l.pos) < l.pos && l.pos <= len(l.src)
+//@   ensures[C13] digits-or-dot: forall k int :: old(l.pos) <= k && k < l.pos ==> isDigitB(l.src[k]) || l.src[k] == '.'
+//@   ensures[C13] one-dot: forall j int, k int :: old(l.pos) <= j && j < k && k < l.pos && l.src[j] == '.' ==> l.src[k] != '.'
+//@   ensures[C13] dot-has-fraction: forall k int :: old(l.pos) <= k && k < l.pos && l.src[k] == '.' ==> k + 1 < l.pos
+//@   ensures[C13] maximal: l.pos == len(l.src) || !isDigitB(l.src[l.pos])
+//@   ensures[C13] maximal-fraction: l.pos + 1 < len(l.src) && l.src[l.pos] == '.' && isDigitB(l.src[l.pos+1]) ==> (exists j int :: old(l.pos) <= j && j < l.pos && l.src[j] == '.')
+//@   modifies l.pos
+//@   loop 0 invariant a: old(l.pos) <= l.pos && l.pos <= len(l.src) && l.src == old(l.src) && l.tokenStart == old(l.tokenStart)
+//@   loop 0 invariant b: forall k int :: old(l.pos) <= k && k < l.pos ==> isDigitB(l.src[k])
+//@   loop 1 invariant a: old(l.pos) < l.pos && l.pos <= len(l.src) && l.src == old(l.src) && l.tokenStart == old(l.tokenStart)
+//@   loop 1 invariant b: exists d int :: old(l.pos) < d && d < l.pos && l.src[d] == '.' && (forall k int :: old(l.pos) <= k && k < l.pos && k != d ==> isDigitB(l.src[k]))
+
+// Keyword recognition: the tag is a function of the whole maximal identifier run.
+//@ spec func kwTag(s string) TokenTag = s == "BEGIN" ? Begin : s == "END" ? End : s == "BEGINFILE" ? BeginFile : s == "ENDFILE" ? EndFile : s == "print" ? Print : s == "$" ? Dollar : s == "function" ? Function : s == "return" ? Return : s == "if" ? If : s == "else" ? Else : s == "for" ? For : s == "while" ? While : s == "in" ? In : s == "match" ? Match : s == "true" ? True : s == "false" ? False : s == "break" ? Break : s == "continue" ? Continue : s == "next" ? Next : s == "exit" ? Exit : s == "null" ? Null : s == "is" ? Is : Ident
+
+//@ func Lexer.identifier [C13]
+//@   requires tokOK(l)
+//@   ensures[C13] maximal-run: old(l.pos) <= l.pos && l.pos <= len(l.src) && (forall k int :: old(l.pos) <= k && k < l.pos ==> isIdentB(l.src[k])) && (l.pos == len(l.src) || !isIdentB(l.src[l.pos]))
+//@   ensures[C13] whole-word-keyword: result.Tag == kwTag(l.src[l.tokenStart : l.pos])
+//@   ensures[C13] token: result.Pos == l.tokenStart && l.tokenStart == old(l.tokenStart) && result.Len == (result.Tag == Ident ? l.pos - l.tokenStart : 0)
+//@   modifies l.pos
+//@   loop 0 invariant a: old(l.pos) <= l.pos && l.pos <= len(l.src) && l.src == old(l.src) && l.tokenStart == old(l.tokenStart)
+//@   loop 0 invariant b: forall k int :: old(l.pos) <= k && k < l.pos ==> isIdentB(l.src[k])
+
+//@ spec func isSyn(err error) bool = istype(err, SyntaxError)
+//@ spec func isRT(err error) bool = istype(err, RuntimeError)
+//@ spec func isJsonErr(err error) bool = istype(err, JsonError)
+
+// Lexer.string is entered after the opening quote has been consumed.
+//@ func Lexer.string [C13]
+//@   requires tokOK(l) && l.pos == l.tokenStart + 1
+//@   ensures[C13] closed: err == nil ==> result0.Tag == Str && result0.Pos == old(l.tokenStart) + 1 && result0.Len == l.pos - old(l.tokenStart) - 2 && result0.Len >= 0 && l.pos <= len(l.src) && l.src[l.pos-1] == quoteChar && (forall k int :: result0.Pos <= k && k < result0.Pos + result0.Len ==> l.src[k] != quoteChar)
+//@   ensures[C13] unclosed-iff: (err != nil) <==> (forall k int :: old(l.pos) <= k && k < len(l.src) ==> l.src[k] != quoteChar)
+//@   ensures[C13] unclosed-token: err != nil ==> result0.Tag == Error && result0.Pos == old(l.tokenStart) && l.tokenStart == old(l.tokenStart)
+//@   ensures[C01] errkind: err != nil ==> isSyn(err)
+//@   ensures lexok: lexOK(l) && l.src == old(l.src)
+//@   modifies l.pos, l.tokenStart
+//@   loop 0 invariant a: old(l.pos) <= l.pos && l.pos <= len(l.src) && l.src == old(l.src) && l.tokenStart == old(l.tokenStart)
+//@   loop 0 invariant b: forall k int :: old(l.pos) <= k && k < l.pos ==> l.src[k] != quoteChar
+
+// Lexer.Regex is called by the parser after the opening '/' token has been lexed.
+//@ func Lexer.Regex [C13]
+//@   requires tokOK(l)
+//@   ensures[C13] closed: err == nil ==> result0.Tag == Regex && result0.Pos == old(l.tokenStart) + 1 && result0.Len == l.pos - old(l.tokenStart) - 2 && l.pos <= len(l.src) && old(l.pos) < l.pos && l.src[l.pos-1] == '/' && (forall k int :: old(l.pos) <= k && k < l.pos - 1 ==> l.src[k] != '/')
+//@   ensures[C13] unclosed-iff: (err != nil) <==> (forall k int :: old(l.pos) <= k && k < len(l.src) ==> l.src[k] != '/')
+//@   ensures[C13] unclosed-token: err != nil ==> result0.Tag == Error && result0.Pos == old(l.tokenStart)
+//@   ensures[C01] errkind: err != nil ==> isSyn(err)
+//@   ensures lexok: lexOK(l) && l.src == old(l.src)
+//@   modifies l.pos, l.tokenStart
+//@   loop 0 invariant a: old(l.pos) <= l.pos && l.pos <= len(l.src) && l.src == old(l.src) && l.tokenStart == old(l.tokenStart)
+//@   loop 0 invariant b: forall k int :: old(l.pos) <= k && k < l.pos ==> l.src[k] != '/'
+
+// Operator table: c is the first byte of the token, d the byte after it (or -1 at the end).
+//@ spec func opTag(c byte, d int) TokenTag = c == '{' ? LCurly : c == '}' ? RCurly : c == '[' ? LSquare : c == ']' ? RSquare : c == '(' ? LParen : c == ')' ? RParen : c == ',' ? Comma : c == '.' ? Dot : c == ';' ? SemiColon : c == ':' ? Colon : c == '~' ? Tilde : c == '%' ? Percent : c == '<' ? (d == '=' ? LessEqual : LessThan) : c == '>' ? (d == '=' ? GreaterEqual : GreaterThan) : c == '+' ? (d == '+' ? PlusPlus : (d == '=' ? PlusEqual : Plus)) : c == '-' ? (d == '-' ? MinusMinus : (d == '=' ? MinusEqual : Minus)) : c == '*' ? (d == '=' ? MultiplyEqual : Multiply) : c == '/' ? (d == '=' ? DivideEqual : Divide) : c == '=' ? (d == '=' ? EqualEqual : (d == '>' ? Arrow : Equal)) : c == '!' ? (d == '=' ? BangEqual : (d == '~' ? BangTilde : Bang)) : c == '&' ? AmpAmp : c == '|' ? PipePipe : Error
+//@ spec func isOp(c byte, d int) bool =  c == '{' || c == '}' || c == '[' || c == ']' || c == '(' || c == ')' || c == ',' || c == '.' || c == ';' || c == ':' || c == '~' || c == '%' || c == '<' || c == '>' || c == '+' || c == '-' || c == '*' || c == '/' || c == '=' || c == '!' || (c == '&' && d == '&') || (c == '|' && d == '|')
+//@ spec func opTwo(c byte, d int) bool = (c == '<' && d == '=') || (c == '>' && d == '=') || (c == '+' && (d == '+' || d == '=')) || (c == '-' && (d == '-' || d == '=')) || (c == '*' && d == '=') || (c == '/' && d == '=') || (c == '=' && (d == '=' || d == '>')) || (c == '!' && (d == '=' || d == '~')) || (c == '&' && d == '&') || (c == '|' && d == '|')
+//@ spec func byteAt(s string, k int) int = k < len(s) ? int(s[k]) : 0 - 1
+//@ spec func tokStart(t Token) int = t.Tag == Str ? t.Pos - 1 : t.Pos
+//@ spec func skipped(s string, a int, q int) bool = a <= q && q <= len(s) && (forall k int :: a <= k && k < q ==> s[k] != '\n' && (isBlank(s[k]) || cmt(s, k) >= a))
+
+//@ spec func numShape(s string, a int, b int) bool = a < b && b <= len(s)
+//@   | && (forall k int :: a <= k && k < b ==> isDigitB(s[k]) || s[k] == '.')
+//@   | && (forall j int, k int :: a <= j && j < k && k < b && s[j] == '.' ==> s[k] != '.')
+//@   | && (forall k int :: a <= k && k < b && s[k] == '.' ==> k + 1 < b)
+//@   | && (b == len(s) || !isDigitB(s[b]))
+//@   | && (b + 1 < len(s) && s[b] == '.' && isDigitB(s[b+1]) ==> (exists j int :: a <= j && j < b && s[j] == '.'))
+//@ spec func identRun(s string, a int, b int) bool = a <= b && b <= len(s) && (forall k int :: a <= k && k < b ==> isIdentB(s[k])) && (b == len(s) || !isIdentB(s[b]))
+
+//@ func Lexer.Next [C13,C12]
+//@   requires lexOK(l)
+//@   ensures lexok: lexOK(l) && l.src == old(l.src)
+//@   ensures[C01] errkind: err != nil ==> isSyn(err)
+//@   ensures[C13] eof: err == nil && result0.Tag == EOF ==> skipped(l.src, old(l.pos), len(l.src)) && l.pos == len(l.src)
+//@   ensures[C13] token-start: result0.Tag != EOF ==> skipped(l.src, old(l.pos), tokStart(result0)) && tokStart(result0) < len(l.src) && !isBlank(l.src[tokStart(result0)]) && l.src[tokStart(result0)] != '#'
+//@   ensures[C13] newline-is-token: result0.Tag != EOF && l.src[tokStart(result0)] == '\n' ==> err == nil && result0.Tag == Newline && l.pos == result0.Pos + 1
+//@   ensures[C13] dollar-name: result0.Tag != EOF && l.src[tokStart(result0)] == '$' ==> err == nil && result0.Tag == kwTag(l.src[result0.Pos : l.pos]) && identRun(l.src, result0.Pos + 1, l.pos) && result0.Len == (result0.Tag == Ident ? l.pos - result0.Pos : 0)
+//@   ensures[C13] number: result0.Tag != EOF && isDigitB(l.src[tokStart(result0)]) ==> err == nil && result0.Tag == Num && result0.Len == l.pos - result0.Pos && numShape(l.src, result0.Pos, l.pos)
+//@   ensures[C13] word: result0.Tag != EOF && (isLetterB(l.src[tokStart(result0)]) || l.src[tokStart(result0)] == '_') && !isDigitB(l.src[tokStart(result0)]) ==> err == nil && result0.Tag == kwTag(l.src[result0.Pos : l.pos]) && identRun(l.src, result0.Pos, l.pos) && result0.Len == (result0.Tag == Ident ? l.pos - result0.Pos : 0)
+//@   ensures[C13] string-closed: err == nil && result0.Tag == Str ==> (l.src[result0.Pos-1] == '\'' || l.src[result0.Pos-1] == '"') && result0.Len >= 0 && l.pos == result0.Pos + result0.Len + 1 && l.pos <= len(l.src) && l.src[result0.Pos + result0.Len] == l.src[result0.Pos-1] && (forall k int :: result0.Pos <= k && k < result0.Pos + result0.Len ==> l.src[k] != l.src[result0.Pos-1])
+//@   ensures[C13] quote-starts-string: result0.Tag != EOF && (l.src[tokStart(result0)] == '\'' || l.src[tokStart(result0)] == '"') ==> (err == nil ==> result0.Tag == Str) && ((err != nil) <==> (forall k int :: tokStart(result0) < k && k < len(l.src) ==> l.src[k] != l.src[tokStart(result0)]))
+//@   ensures[C13] operator: result0.Tag != EOF && result0.Tag != Str && !isSpecialStart(l.src[result0.Pos]) ==> ((err == nil) <==> isOp(l.src[result0.Pos], byteAt(l.src, result0.Pos + 1))) && (err == nil ==> result0.Tag == opTag(l.src[result0.Pos], byteAt(l.src, result0.Pos + 1)) && result0.Len == 0 && l.pos == result0.Pos + (opTwo(l.src[result0.Pos], byteAt(l.src, result0.Pos + 1)) ? 2 : 1))
+//@   ensures[C12] illegal-char-position: err != nil && result0.Tag != EOF && l.src[result0.Pos] != '\'' && l.src[result0.Pos] != '"' ==> lineAt(l.src, result0.Pos - as(err, SyntaxError).Col, as(err, SyntaxError).SrcLine, as(err, SyntaxError).Line) && 0 <= as(err, SyntaxError).Col && as(err, SyntaxError).Col < len(as(err, SyntaxError).SrcLine)
+//@   modifies l.pos, l.tokenStart
+//@ spec func isSpecialStart(c byte) bool = c == '\n' || c == '$' || isDigitB(c) || isLetterB(c) || c == '_' || c == '\'' || c == '"'
